@@ -7,3 +7,210 @@ try:
     REPLAYERS.update(getattr(_ring, "REPLAYERS", {}))
 except ImportError:
     _ring = None
+
+import numpy, z3
+from pyvc import sym, barr, modeb, lemma
+from pyvc.sym import cur, _t, ite
+from pyvc.lemma import sqrt_def, SQRT
+
+BV = "pybrops/popgen/bvmat/DenseBreedingValueMatrix.py"
+R = lambda x: (z3.ToReal(_t(x)) if _t(x).sort() == z3.IntSort() else _t(x))
+CLASSES = {
+    "bv": ("pybrops.popgen.bvmat.DenseBreedingValueMatrix", "DenseBreedingValueMatrix"),
+    "ebv": ("pybrops.popgen.bvmat.DenseEstimatedBreedingValueMatrix", "DenseEstimatedBreedingValueMatrix"),
+    "gebv": ("pybrops.popgen.bvmat.DenseGenomicEstimatedBreedingValueMatrix", "DenseGenomicEstimatedBreedingValueMatrix"),
+}
+
+
+def _cls(k):
+    import importlib
+    m, c = CLASSES[k]
+    return getattr(importlib.import_module(m), c)
+
+
+def _col_stats(e, raw, n, t):
+    """independent per-trait mean / population variance of the raw values; ties the SQRT instance of the variance"""
+    mean = [sum((R(raw[i, k]) for i in range(n)), z3.RealVal(0)) / n for k in range(t)]
+    var = [sum(((R(raw[i, k]) - mean[k]) * (R(raw[i, k]) - mean[k]) for i in range(n)), z3.RealVal(0)) / n for k in range(t)]
+    for k in range(t):
+        e.assume(sqrt_def(var[k]))
+    return mean, var
+
+
+def _roundtrip_obligations(e, tag, bv, raw, n, t):
+    mean, var = _col_stats(e, raw, n, t)
+    un = bv.unscale()
+    e.prove(tag + ":unscale-reproduces-raw", modeb.eq(un, raw))
+    loc, sc = bv.location, bv.scale
+    e.prove(tag + ":location==trait-mean", z3.And(*[R(loc[k]) == mean[k] for k in range(t)]))
+    e.prove(tag + ":scale==trait-std-or-1-if-constant",
+            z3.And(*[R(sc[k]) == z3.If(var[k] == 0, z3.RealVal(1), SQRT(var[k])) for k in range(t)]))
+    e.prove(tag + ":scale-positive", z3.And(*[R(sc[k]) > 0 for k in range(t)]))
+    # original-scale summaries
+    mx = bv.tmax(True)
+    mn = bv.tmin(True)
+    rg = bv.trange(True)
+    mu = bv.tmean(True)
+    for k in range(t):
+        col = [R(raw[i, k]) for i in range(n)]
+        e.prove(tag + ":tmax[%d]" % k, z3.And(z3.Or(*[R(mx[k]) == c for c in col]), *[R(mx[k]) >= c for c in col]))
+        e.prove(tag + ":tmin[%d]" % k, z3.And(z3.Or(*[R(mn[k]) == c for c in col]), *[R(mn[k]) <= c for c in col]))
+        e.prove(tag + ":trange[%d]" % k, R(rg[k]) == R(mx[k]) - R(mn[k]))
+        e.prove(tag + ":tmean[%d]" % k, R(mu[k]) == mean[k])
+    am, an = bv.targmax(), bv.targmin()
+    for k in range(t):
+        col = [R(raw[i, k]) for i in range(n)]
+        e.prove(tag + ":targmax[%d]" % k, z3.And(*[col[int(am[k])] >= c for c in col]))
+        e.prove(tag + ":targmin[%d]" % k, z3.And(*[col[int(an[k])] <= c for c in col]))
+
+
+@unit(P, "B[from_numpy/unscale round trip and original-scale summaries]", "B", bounded=True, targets=[BV + ":DenseBreedingValueMatrix.from_numpy"],
+      note="bounded(shape): ntaxa<=3, ntrait<=2; raw values symbolic reals (constant columns included via the scale==0 branch)")
+def u_b_roundtrip(ctx):
+    ctx.trust(*lemma.TRUST)
+
+    def body(e, shape, tag):
+        key, n, t = shape
+        C = _cls(key)
+        raw = barr.fresh("raw", (n, t), "float64")
+        bv = C.from_numpy(raw)
+        _roundtrip_obligations(e, tag, bv, raw, n, t)
+        # tstd/tvar on the original scale for non-constant traits (constant traits: known finding C15-F8a)
+        mean, var = _col_stats(e, raw, n, t)
+        sd, vr = bv.tstd(True), bv.tvar(True)
+        for k in range(t):
+            saved = list(e.assumptions)
+            e.assume(var[k] != 0)
+            e.prove(tag + ":tstd[%d]-nonconstant-trait" % k, R(sd[k]) == SQRT(var[k]))
+            e.prove(tag + ":tvar[%d]-nonconstant-trait" % k, R(vr[k]) == var[k])
+            e.assumptions[:] = saved
+        return "ok"
+    shapes = [("bv", 1, 1), ("bv", 2, 1), ("bv", 3, 1), ("bv", 2, 2), ("ebv", 2, 1), ("gebv", 2, 1)]
+    if ctx.tier == "thorough":
+        shapes += [("bv", 3, 2), ("ebv", 3, 1), ("gebv", 3, 1)]
+    modeb.run_shapes(ctx, "bvmat", shapes, body)
+
+
+from pyvc import oarr, loopcut
+from pyvc.oarr import OArr, same
+from pyvc.sym import fresh_int
+
+
+@unit(P, "A1[select/delete/insert/adjoin_taxa == from_numpy(OP(unscale()), OP(labels))]", "A1", targets=[
+    BV + ":DenseBreedingValueMatrix.select_taxa", BV + ":DenseBreedingValueMatrix.delete_taxa",
+    BV + ":DenseBreedingValueMatrix.insert_taxa", BV + ":DenseBreedingValueMatrix.adjoin_taxa"])
+def u_a1_taxaops(ctx):
+    """modular: unscale()/from_numpy are used through their round-trip contract (proved in the B unit for bounded
+    shapes): the structural operation must hand from_numpy exactly OP(unscaled values) with the labels moved by the
+    same OP, so every retained taxon keeps its raw values and labels"""
+    ctx.trust("numpy structural operators as opaque functions (pyvc/oarr.py)",
+              "from_numpy(mat).unscale() == mat and unscale() == raw values: round-trip contract of the B unit")
+    ex = ctx.explorer(timeout_ms=5000)
+    for key in CLASSES:
+        C = _cls(key)
+        for op in ("select", "delete", "insert", "adjoin", "insert_matrix", "adjoin_matrix"):
+            for present in (("taxa", "taxa_grp", "trait"), ("taxa",), ()):
+                tag = "%s:%s|%s" % (C.__name__, op, ",".join(present) or "-")
+
+                def thunk(C=C, op=op, present=present, tag=tag):
+                    e = cur()
+                    n, t = fresh_int("n", 0), fresh_int("t", 0)
+
+                    def mkobj(pfx, nn):
+                        o = object.__new__(C)
+                        f = dict(_mat=OArr.fresh(pfx + "mat", (nn, t), "float64"), _location=OArr.fresh(pfx + "loc", (t,), "float64"),
+                                 _scale=OArr.fresh(pfx + "scale", (t,), "float64"),
+                                 _taxa=OArr.fresh(pfx + "taxa", (nn,), object) if "taxa" in present else None,
+                                 _taxa_grp=OArr.fresh(pfx + "taxa_grp", (nn,), "int64") if "taxa_grp" in present else None,
+                                 _trait=OArr.fresh("trait", (t,), object) if "trait" in present else None)
+                        for k, v in f.items():
+                            object.__setattr__(o, k, v)
+                        for m in ("_taxa_grp_name", "_taxa_grp_stix", "_taxa_grp_spix", "_taxa_grp_len"):
+                            object.__setattr__(o, m, None)
+                        return o, f
+                    obj, f = mkobj("", n)
+                    U = obj.unscale()
+                    calls = []
+
+                    def from_numpy(mat=None, taxa=None, taxa_grp=None, trait=None, **kw):
+                        calls.append(dict(mat=mat, taxa=taxa, taxa_grp=taxa_grp, trait=trait))
+                        return ("from_numpy-result", len(calls))
+                    saved = C.__dict__.get("from_numpy")
+                    C.from_numpy = staticmethod(from_numpy)
+                    try:
+                        if op == "select":
+                            idx = OArr.fresh("idx", (fresh_int("k", 0),), "int64")
+                            out = obj.select_taxa(idx)
+                            F = lambda a, ax: oarr.a_take(a, idx, ax)
+                        elif op == "delete":
+                            idx = OArr.fresh("idx", (fresh_int("k", 0),), "int64")
+                            e.assume(_t(idx.shape[0]) <= n.t)
+                            out = obj.delete_taxa(idx)
+                            F = lambda a, ax: oarr.a_delete(a, idx, ax)
+                        else:
+                            k = fresh_int("k", 0)
+                            if op.endswith("_matrix"):
+                                other, g = mkobj("o_", k)
+                                V = other.unscale()
+                                vals, kw = other, {}
+                                labs = dict(taxa=g["_taxa"], taxa_grp=g["_taxa_grp"])
+                            else:
+                                V = OArr.fresh("values", (k, t), "float64")
+                                vals = V
+                                labs = dict(taxa=OArr.fresh("ntaxa", (k,), object) if "taxa" in present else None,
+                                            taxa_grp=OArr.fresh("ngrp", (k,), "int64") if "taxa_grp" in present else None)
+                                kw = {a: b for a, b in labs.items() if b is not None}
+                            if op.startswith("adjoin"):
+                                out = obj.adjoin_taxa(vals, **kw)
+                                F = lambda a, ax, b=None: oarr.a_concatenate([a, b], ax)
+                            else:
+                                pos = OArr.fresh("obj", (k,), "int64")
+                                out = obj.insert_taxa(pos, vals, **kw)
+                                F = lambda a, ax, b=None: oarr.a_insert(a, pos, b, ax)
+                    finally:
+                        if saved is not None:
+                            C.from_numpy = saved
+                        else:
+                            del C.from_numpy
+                    e.prove(tag + ":result-is-from_numpy-of-one-call", len(calls) == 1 and out == ("from_numpy-result", 1))
+                    c = calls[0]
+                    if op in ("select", "delete"):
+                        exp = dict(mat=F(U, 0), taxa=F(f["_taxa"], 0) if f["_taxa"] is not None else None,
+                                   taxa_grp=F(f["_taxa_grp"], 0) if f["_taxa_grp"] is not None else None)
+                    else:
+                        exp = dict(mat=F(U, 0, V), taxa=F(f["_taxa"], 0, labs["taxa"]) if f["_taxa"] is not None else None,
+                                   taxa_grp=F(f["_taxa_grp"], 0, labs["taxa_grp"]) if f["_taxa_grp"] is not None else None)
+                    e.prove(tag + ":raw-values-moved-by-the-operator", same(c["mat"], exp["mat"]))
+                    e.prove(tag + ":taxa-moved-by-the-same-operator", same(c["taxa"], exp["taxa"]))
+                    e.prove(tag + ":taxa_grp-moved-by-the-same-operator", same(c["taxa_grp"], exp["taxa_grp"]))
+                    e.prove(tag + ":trait-labels-passed-through", (c["trait"] is f["_trait"]) or
+                            (c["trait"] is not None and f["_trait"] is not None and c["trait"]._term.eq(f["_trait"]._term)))
+                    e.prove(tag + ":operand-not-assigned", all(getattr(obj, k) is v for k, v in f.items()))
+                    return "ok"
+                try:
+                    outs = ex.explore(thunk)
+                except sym.Unsupported as u:
+                    ex.obligations.append(dict(name=tag + ":supported-subset", unit=ex.unit, kind="unsupported", path=0, status="unknown",
+                                               solver="front-end", seconds=0.0, expect="proved", detail="UNSUPPORTED %s" % u))
+                    continue
+                raised = [o for o in outs if isinstance(o, sym.Raised)]
+                ex.obligations.append(dict(name=tag + ":noraise", unit=ex.unit, kind="noraise", path=0,
+                                           status="proved" if not raised else "refuted", solver="native", seconds=0.0, expect="proved",
+                                           detail="; ".join(repr(r) for r in raised[:2]) + ("\n" + raised[0].tb[-800:] if raised else "")))
+    ctx.absorb(ex)
+
+
+def _wrap_unit(fn):
+    def g(ctx):
+        for m, c in CLASSES.values():
+            _cls_import = __import__(m)
+        with oarr.patched_numpy(), loopcut.patched_modules(["pybrops.*"]):
+            fn(ctx)
+    return g
+
+
+# run the A1 unit with the symbolic-aware builtins installed in the repository modules
+from pyvc import unit as _U
+for _s in _U.UNITS[P]:
+    if _s.name.startswith("A1[select/delete"):
+        _s.fn = _wrap_unit(_s.fn)
